@@ -186,7 +186,7 @@ def _subterms(exprs):
     return list(seen.values())
 
 
-def ground_instances(exprs, rounds=2):
+def ground_instances(exprs, rounds=4):
     """quantifier-free instances of the sequence axioms for the ground terms that occur (hand-rolled,
     bounded E-matching).  Every instance is a consequence of AXIOMS, so  unsat  of the ground query is a
     proof, and  sat  yields a genuine model of a decidable weakening (candidate counterexample)."""
@@ -265,6 +265,10 @@ def ground_instances(exprs, rounds=2):
             elif n == "seqeq":
                 inst.append(t == (a[0] == a[1]))
                 inst.append(z3.Implies(t, slen(a[0]) == slen(a[1])))
+                # extensionality with its skolem witness (ground): unequal sequences differ in length or at sdiff(a,b)
+                d = sdiff(a[0], a[1])
+                inst.append(z3.Or(a[0] == a[1], slen(a[0]) != slen(a[1]),
+                                  z3.And(0 <= d, d < slen(a[0]), sat_(a[0], d) != sat_(a[1], d))))
             elif n == "pow2":
                 inst.append(z3.Implies(a[0] >= 0, t >= 1))
                 inst.append(z3.Implies(a[0] == 0, t == 1))
